@@ -1,8 +1,12 @@
 #!/bin/sh
-# sweep.sh FROM TO : run every property's quick check for seeds FROM..TO on the current tree; print only alarms
+# sweep.sh FROM TO [tier]: run every property's check for seeds FROM..TO on the current tree; print only alarms,
+# tool errors and unexpected exit codes
+TIER=${3:-quick}
 for s in $(seq $1 $2); do
   for p in C01 C02 C03 C04 C05 C06 C07 C08 C09 C10 C11 C12 C13 C14 C15 C16 C17 C18 C19 C20; do
-    python3 tools/check.py $p --seed $s 2>&1 | grep -E "VIOLATION|TOOL|VIOLATED|DRIFT" | sed "s/^/seed=$s /" | cut -c1-260
+    out=$(python3 tools/check.py $p --seed $s --tier $TIER 2>&1); rc=$?
+    echo "$out" | grep -E "VIOLATION|TOOL|VIOLATED|DRIFT" | sed "s/^/seed=$s /" | cut -c1-260
+    [ $rc -ne 0 ] && echo "seed=$s $p exit=$rc: $(echo "$out" | tail -2 | cut -c1-300)"
   done
   echo "seed $s done"
 done
